@@ -8,6 +8,8 @@ import HealSparse.Lemmas.BoolOps
 import HealSparse.Model.BoolOps
 import HealSparse.Props.C04
 import HealSparse.Props.C01
+import HealSparse.Props.C02
+import HealSparse.Lemmas.ApiBool
 namespace HS
 namespace C11
 
@@ -100,6 +102,453 @@ theorem absorption_on_common (c : Cfg) (a b : State Bool) (ha : Inv c bvc a) (hb
 /-- non-vacuity: operands with different block orders and partially overlapping coverage -/
 example : Inv ⟨3, 1⟩ bvc ⟨#[4, -2, -2], #[false, false, true, false, false, true]⟩ ∧
     Inv ⟨3, 1⟩ bvc ⟨#[2, 2, -4], #[false, false, true, true, true, false]⟩ := by decide
+
+/-! ## C11 at the API level
+
+The theorems above are about the generic core functions.  Below: the same properties of the API
+functions themselves — `apiBoolOp` (`_apply_boolean_map_operation`: `&`, `|`, `^`, `&=`, `|=`,
+`^=` with a boolean map or a constant `True` / `False`) and `apiInvert` (`invert`, `~`) of
+Model/Api.lean — argument validation, sentinel rule, storage kind and error behaviour
+included, for every `MapObj.Ok` operand (Lemmas/ApiBool.lean).
+
+Observers: `m.abs p` = `get_values_pix`, `m.covd k` = `coverage_mask[k]`, `m.bval p` = the
+boolean shown at `p`; `a.stored st` = the object the driver stores for the returned arrays
+(all fields of the LEFT operand, cache reset). -/
+
+open ApiBool
+
+/-- the observers are the API's: `coverage_mask` lists `covd`, `get_values_pix([p])` answers
+    `abs p` -/
+theorem api_observers (m : MapObj) :
+    apiCovMask m = (List.range m.c.ncov).map m.covd ∧
+    ∀ p, p < m.npix → apiGet m [p] = .ok [m.abs p] :=
+  ⟨apiCovMask_eq m, fun _ hp => apiGet_single m hp⟩
+
+/-- **(1) errors, exactly.**  `_apply_boolean_map_operation` is accepted iff the left operand is
+    boolean and the right one is a constant or a boolean map of the same two orders with both
+    sentinels ≠ `True`; every refusal is `NotImplementedError`; the result is the explicit
+    state `boolOpSt`.  Neither the operator string nor `in_place` takes part in the decision
+    (an operator other than `and` / `or` is `xor`: `api_unknown_op_is_xor`). -/
+theorem api_boolop_total (a : MapObj) (op : String) (rhs : BoolRhs) (inPlace : Bool) :
+    apiBoolOp a op rhs inPlace =
+      if BoolOpOk a rhs then .ok (boolOpSt a op rhs inPlace) else .error .notImpl :=
+  apiBoolOp_eq a op rhs inPlace
+
+/-- the in-place and the copying form (and all operators) fail on exactly the same calls with
+    the same error -/
+theorem api_boolop_same_errors (a : MapObj) (op op' : String) (rhs : BoolRhs) (ip ip' : Bool)
+    (e : Err) : apiBoolOp a op rhs ip = .error e ↔ apiBoolOp a op' rhs ip' = .error e :=
+  apiBoolOp_error_iff a op op' rhs ip ip' e
+
+/-- `invert` / `~`: refused (`NotImplementedError`) iff the map is not boolean -/
+theorem api_invert_total (a : MapObj) :
+    apiInvert a =
+      if a.kind.isBool = true then .ok (ofBoolState (invertMap a.c (toBoolState a.st)))
+      else .error .notImpl :=
+  apiInvert_eq a
+
+/-- **(1) `a op b`, `a op= b`** for boolean maps of any mix of storages: the stored result is
+    `Ok`, keeps the kind (storage), sentinel and orders of the LEFT operand, has boolean cells;
+    coverage = union; inside `b`'s coverage the pointwise operation (with `a` = `False` outside
+    its own coverage), outside it `a`'s value -/
+theorem api_boolop_map {a b : MapObj} {op : String} {ip : Bool} {st : State Val}
+    (ha : a.Ok) (hb : b.Ok) (h : apiBoolOp a op (.map b) ip = .ok st) :
+    (a.stored st).Ok ∧ (a.stored st).BoolCells ∧
+    (a.stored st).kind = a.kind ∧ (a.stored st).sent = a.sent ∧
+    (a.stored st).covord = a.covord ∧ (a.stored st).spord = a.spord ∧
+    (∀ k, k < a.c.ncov → (a.stored st).covd k = (a.covd k || b.covd k)) ∧
+    (∀ p, p < a.npix → (a.stored st).abs p =
+        .bool (if b.covd (p >>> a.c.shift) = true then boolFn op (a.bval p) (b.bval p)
+               else a.bval p)) ∧
+    (∀ p, p < a.npix → a.covd (p >>> a.c.shift) = false → a.bval p = false) ∧
+    (∀ p, p < a.npix → b.covd (p >>> a.c.shift) = false → b.bval p = false) := by
+  obtain ⟨h1, h2, h3, h4, h5⟩ := map_spec ha.1 ha.2.1 hb.1 h
+  refine ⟨⟨h1, h2, ha.2.2⟩, h3, rfl, rfl, rfl, rfl, h4, h5, fun p hp => ?_, fun p hp => ?_⟩
+  · exact (map_pixel ha.1 ha.2.1 hb.1 h hp).2.2.1
+  · exact (map_pixel ha.1 ha.2.1 hb.1 h hp).2.2.2
+
+/-- … and when `a`'s cells are booleans (`MapObj.BoolCells`; true of every map built by
+    `make_empty` and of every result of a boolean operation, NOT implied by `MapObj.Ok`),
+    outside `b`'s coverage the result shows `a`'s value unchanged -/
+theorem api_boolop_map_outside_partial {a b : MapObj} {op : String} {ip : Bool} {st : State Val}
+    (ha : a.Ok) (hca : a.BoolCells) (hb : b.Ok) (h : apiBoolOp a op (.map b) ip = .ok st)
+    (p : Nat) (hp : p < a.npix) (hc : b.covd (p >>> a.c.shift) = false) :
+    (a.stored st).abs p = a.abs p :=
+  (map_spec_cells ha.1 ha.2.1 hca hb.1 h).2.1 p hp hc
+
+/-- **(1) constants** act on `a`'s coverage only; coverage, kind, sentinel kept; any boolean
+    sentinel is accepted -/
+theorem api_boolop_const {a : MapObj} {op : String} {k ip : Bool} {st : State Val}
+    (ha : a.Ok) (h : apiBoolOp a op (.const k) ip = .ok st) :
+    (a.stored st).Ok ∧ (a.stored st).BoolCells ∧ (a.stored st).kind = a.kind ∧
+    (∀ j, (a.stored st).covd j = a.covd j) ∧
+    (∀ p, p < a.npix → (a.stored st).abs p =
+        .bool (if a.covd (p >>> a.c.shift) = true then boolFn op (a.bval p) k else a.bval p)) := by
+  obtain ⟨h1, h2, h3, h4, h5⟩ := const_spec ha.1 ha.2.1 h
+  exact ⟨⟨h1, h2, ha.2.2⟩, h3, rfl, h4, h5⟩
+
+/-- **(1) in place = copy**: on a well-formed left operand the two forms return literally the
+    same arrays or the same error -/
+theorem api_inplace_eq_copy {a : MapObj} (op : String) (rhs : BoolRhs) (ha : a.Ok) :
+    apiBoolOp a op rhs true = apiBoolOp a op rhs false :=
+  apiBoolOp_inplace_eq_copy op rhs ha.1
+
+/-- … hence content-equal results: `SameAt a s₁ s₂` is verbatim `C10.Same a.c a.vc s₁ s₂` -/
+theorem api_inplace_copy_same {a : MapObj} {op : String} {rhs : BoolRhs} {s1 s2 : State Val}
+    (ha : a.Ok) (hrhs : ∀ b, rhs = .map b → b.Ok)
+    (h1 : apiBoolOp a op rhs true = .ok s1) (h2 : apiBoolOp a op rhs false = .ok s2) :
+    s1 = s2 ∧ SameAt a s1 s2 :=
+  inplace_copy_same ha.1 ha.2.1 (fun b hb => (hrhs b hb).1) h1 h2
+
+/-- **storage blindness**: replacing either operand's kind by the other boolean kind changes
+    nothing in the outcome (arrays or error) -/
+theorem api_storage_blind (a b : MapObj) (ka kb : Kind) (op : String) (ip : Bool)
+    (h1 : ka.isBool = a.kind.isBool) (h2 : kb.isBool = b.kind.isBool) :
+    apiBoolOp { a with kind := ka } op (.map { b with kind := kb }) ip = apiBoolOp a op (.map b) ip :=
+  apiBoolOp_kind_blind a b ka a.kind kb b.kind h1 h2 op ip
+
+/-- **(2) `~a`**: flips exactly the covered pixels, a pixel outside the coverage keeps showing
+    the sentinel; coverage, kind, sentinel kept -/
+theorem api_invert {a : MapObj} {st : State Val} (ha : a.Ok) (h : apiInvert a = .ok st) :
+    (a.stored st).Ok ∧ (a.stored st).BoolCells ∧ (a.stored st).kind = a.kind ∧
+    (∀ j, (a.stored st).covd j = a.covd j) ∧
+    (∀ p, p < a.npix → (a.stored st).abs p =
+        .bool (if a.covd (p >>> a.c.shift) = true then !(a.bval p) else a.bval p)) := by
+  obtain ⟨h1, h2, h3, h4, h5⟩ := ApiBool.invert_spec ha.1 ha.2.1 h
+  exact ⟨⟨h1, h2, ha.2.2⟩, h3, rfl, h4, h5⟩
+
+/-- "False outside the coverage stays False" holds for the `False` sentinel (always the case for
+    a bit-packed map); an ordinary boolean map with sentinel `True` shows `True` there, before
+    and after (`ex_invert_sentinel_true`) -/
+theorem api_invert_outside_partial {a : MapObj} {st : State Val} (ha : a.Ok)
+    (hs : a.sent = .bool false) (h : apiInvert a = .ok st) (p : Nat) (hp : p < a.npix)
+    (hc : a.covd (p >>> a.c.shift) = false) : (a.stored st).abs p = .bool false := by
+  obtain ⟨hk, _⟩ := WFApi.apiInvert_ok h
+  rw [(ApiBool.invert_spec ha.1 ha.2.1 h).2.2.2.2 p hp, if_neg (by rw [hc]; simp),
+    bval_uncovered ha.1 hp hc, (blank_of_isBool hk ha.2.1).1, hs]
+  rfl
+
+/-- **(2) involution**: `~~a` has `a`'s arrays (boolean cells; in general the boolean reading
+    `ofBoolState (toBoolState a.st)` of them) -/
+theorem api_invert_involutive {a : MapObj} {st st2 : State Val} (hc : a.BoolCells)
+    (h1 : apiInvert a = .ok st) (h2 : apiInvert (a.stored st) = .ok st2) : st2 = a.st :=
+  invert_invert_cells hc h1 h2
+
+/-- **(3) commutativity, exactly** — the documented non-commutativity made precise: `a op b` and
+    `b op a` always have the same coverage (the union); their values differ at `p` iff
+    `op = "and"` and exactly one operand covers `p` and shows `True` there (`a & b` keeps `a`
+    outside `b`'s coverage, `b & a` computes `False & a`) -/
+theorem api_comm_exact {a b : MapObj} {op : String} {ip ip' : Bool} {s1 s2 : State Val}
+    (ha : a.Ok) (hb : b.Ok)
+    (h1 : apiBoolOp a op (.map b) ip = .ok s1) (h2 : apiBoolOp b op (.map a) ip' = .ok s2) :
+    (∀ k, k < a.c.ncov → (a.stored s1).covd k = (b.stored s2).covd k) ∧
+    (∀ p, p < a.npix →
+      ((a.stored s1).abs p ≠ (b.stored s2).abs p ↔
+        op = "and" ∧
+          ((a.covd (p >>> a.c.shift) = true ∧ b.covd (p >>> a.c.shift) = false ∧ a.bval p = true) ∨
+           (b.covd (p >>> a.c.shift) = true ∧ a.covd (p >>> a.c.shift) = false ∧ b.bval p = true)))) :=
+  comm_exact ha.1 ha.2.1 hb.1 hb.2.1 h1 h2
+
+/-- **(3) `|` and `^` commute up to content equality** on the whole sphere (lifts
+    `or_comm_on_common`, and extends it beyond the common coverage) -/
+theorem api_or_xor_comm {a b : MapObj} {op : String} {ip ip' : Bool} {s1 s2 : State Val}
+    (ha : a.Ok) (hb : b.Ok) (hop : op ≠ "and")
+    (h1 : apiBoolOp a op (.map b) ip = .ok s1) (h2 : apiBoolOp b op (.map a) ip' = .ok s2) :
+    SameAt a s1 s2 :=
+  comm_same ha.1 ha.2.1 hb.1 hb.2.1 hop h1 h2
+
+/-- **(3) `&` commutes on the common coverage** (and wherever the covering operand is `False`) -/
+theorem api_and_comm_on_common {a b : MapObj} {ip ip' : Bool} {s1 s2 : State Val}
+    (ha : a.Ok) (hb : b.Ok)
+    (h1 : apiBoolOp a "and" (.map b) ip = .ok s1) (h2 : apiBoolOp b "and" (.map a) ip' = .ok s2)
+    (p : Nat) (hp : p < a.npix)
+    (hca : a.covd (p >>> a.c.shift) = true) (hcb : b.covd (p >>> a.c.shift) = true) :
+    (a.stored s1).abs p = (b.stored s2).abs p := by
+  apply Decidable.not_not.1
+  intro hne
+  rcases ((api_comm_exact ha hb h1 h2).2 p hp).1 hne with ⟨_, ⟨_, h, _⟩ | ⟨_, h, _⟩⟩
+  · rw [hcb] at h; cases h
+  · rw [hca] at h; cases h
+
+/-- **(3) De Morgan, exactly**: `~(a & b)` and `~a | ~b` have the same coverage and differ at
+    `p` iff only `b` covers `p` and `b` is `True` there (left: `True`, right: `False`) -/
+theorem api_de_morgan_exact {a b : MapObj} {ip ip' : Bool} {s1 s2 ia ib s3 : State Val}
+    (ha : a.Ok) (hb : b.Ok)
+    (h1 : apiBoolOp a "and" (.map b) ip = .ok s1) (h2 : apiInvert (a.stored s1) = .ok s2)
+    (h3 : apiInvert a = .ok ia) (h4 : apiInvert b = .ok ib)
+    (h5 : apiBoolOp (a.stored ia) "or" (.map (b.stored ib)) ip' = .ok s3) :
+    (∀ k, k < a.c.ncov → ((a.stored s1).stored s2).covd k = ((a.stored ia).stored s3).covd k) ∧
+    (∀ p, p < a.npix →
+      (((a.stored s1).stored s2).abs p ≠ ((a.stored ia).stored s3).abs p ↔
+        (b.covd (p >>> a.c.shift) = true ∧ a.covd (p >>> a.c.shift) = false ∧ b.bval p = true))) :=
+  de_morgan_exact ha.1 ha.2.1 hb.1 hb.2.1 h1 h2 h3 h4 h5
+
+/-- **(3) the dual law, exactly**: `~(a | b)` and `~a & ~b` differ at `p` iff only `b` covers `p`
+    and `b` is `False` there (left: `True`, right: `False`) -/
+theorem api_de_morgan_or_exact {a b : MapObj} {ip ip' : Bool} {s1 s2 ia ib s3 : State Val}
+    (ha : a.Ok) (hb : b.Ok)
+    (h1 : apiBoolOp a "or" (.map b) ip = .ok s1) (h2 : apiInvert (a.stored s1) = .ok s2)
+    (h3 : apiInvert a = .ok ia) (h4 : apiInvert b = .ok ib)
+    (h5 : apiBoolOp (a.stored ia) "and" (.map (b.stored ib)) ip' = .ok s3) :
+    (∀ k, k < a.c.ncov → ((a.stored s1).stored s2).covd k = ((a.stored ia).stored s3).covd k) ∧
+    (∀ p, p < a.npix →
+      (((a.stored s1).stored s2).abs p ≠ ((a.stored ia).stored s3).abs p ↔
+        (b.covd (p >>> a.c.shift) = true ∧ a.covd (p >>> a.c.shift) = false ∧ b.bval p = false))) :=
+  de_morgan_or_exact ha.1 ha.2.1 hb.1 hb.2.1 h1 h2 h3 h4 h5
+
+/-- **(3) De Morgan on the coverage of `a`** (in particular on the common coverage: lifts
+    `de_morgan_on_common`) -/
+theorem api_de_morgan_on_common {a b : MapObj} {ip ip' : Bool} {s1 s2 ia ib s3 : State Val}
+    (ha : a.Ok) (hb : b.Ok)
+    (h1 : apiBoolOp a "and" (.map b) ip = .ok s1) (h2 : apiInvert (a.stored s1) = .ok s2)
+    (h3 : apiInvert a = .ok ia) (h4 : apiInvert b = .ok ib)
+    (h5 : apiBoolOp (a.stored ia) "or" (.map (b.stored ib)) ip' = .ok s3)
+    (p : Nat) (hp : p < a.npix) (hca : a.covd (p >>> a.c.shift) = true) :
+    ((a.stored s1).stored s2).abs p = ((a.stored ia).stored s3).abs p := by
+  apply Decidable.not_not.1
+  intro hne
+  obtain ⟨_, h, _⟩ := ((api_de_morgan_exact ha hb h1 h2 h3 h4 h5).2 p hp).1 hne
+  rw [hca] at h; cases h
+
+/-- **(3) absorption**: `a | (a & b)` shows `a`'s value at every pixel of the sphere (lifts
+    `absorption_on_common`); its coverage is the union -/
+theorem api_absorption {a b : MapObj} {ip ip' : Bool} {s1 s2 : State Val}
+    (ha : a.Ok) (hca : a.BoolCells) (hb : b.Ok)
+    (h1 : apiBoolOp a "and" (.map b) ip = .ok s1)
+    (h2 : apiBoolOp a "or" (.map (a.stored s1)) ip' = .ok s2) :
+    (∀ k, k < a.c.ncov → (a.stored s2).covd k = (a.covd k || b.covd k)) ∧
+    (∀ p, p < a.npix → (a.stored s2).abs p = a.abs p) := by
+  obtain ⟨hk, _⟩ := WFApi.apiBoolOp_ok h1
+  obtain ⟨h3, h4⟩ := absorption_exact ha.1 ha.2.1 hb.1 h1 h2
+  refine ⟨h3, fun p hp => ?_⟩
+  rw [h4 p hp, bool_bval (ha.2.1.boolBlank hk) hca]
+
+/-- **(3) `a ^ a`**: `False` everywhere, `n_valid = 0`, but NOT the empty map: `a`'s coverage
+    is retained -/
+theorem api_xor_self {a : MapObj} {ip : Bool} {st : State Val} (ha : a.Ok)
+    (h : apiBoolOp a "xor" (.map a) ip = .ok st) :
+    (∀ k, k < a.c.ncov → (a.stored st).covd k = a.covd k) ∧
+    (∀ p, p < a.npix → (a.stored st).abs p = .bool false) ∧
+    nValid (a.stored st).vc (a.stored st).st = 0 :=
+  ⟨(xor_self ha.1 ha.2.1 (by decide) (by decide) h).1,
+   (xor_self ha.1 ha.2.1 (by decide) (by decide) h).2,
+   nValid_xor_self ha.1 ha.2.1 (by decide) (by decide) h⟩
+
+/-- an operator string other than `and` / `or` is `xor` (no error in the model; the real private
+    routine refuses such a name, its public callers never pass one) -/
+theorem api_unknown_op_is_xor (a : MapObj) (op : String) (rhs : BoolRhs) (ip : Bool)
+    (h1 : op ≠ "and") (h2 : op ≠ "or") : apiBoolOp a op rhs ip = apiBoolOp a "xor" rhs ip := by
+  rw [apiBoolOp_eq, apiBoolOp_eq]
+  unfold boolOpSt
+  rw [boolFn_other h1 h2, boolFn_other (op := "xor") (by decide) (by decide)]
+
+/-- **(4) `n_valid` of a boolean map** (ties to C02: `C02.validSet` is the set `n_valid` counts)
+    = number of pixels that differ from the sentinel; for the `False` sentinel the number of
+    `True` pixels -/
+theorem api_nvalid_bool {m : MapObj} (hm : m.Ok) (hk : m.kind.isBool = true) (hc : m.BoolCells)
+    {x : Bool} (hx : m.sent = .bool x) :
+    nValid m.vc m.st = (C02.validSet m.c m.vc m.st).length ∧
+    nValid m.vc m.st = ((List.range m.npix).filter fun p => m.bval p != x).length :=
+  ⟨C02.nValid_eq m.c m.vc m.st hm.1.2 hm.2.1.blankInvalid, nValid_bool hm.1 hk hm.2.1 hc hx⟩
+
+/-- **(4) `n_valid` of `a op b`** = number of `True` cells of the dense result -/
+theorem api_nvalid_map {a b : MapObj} {op : String} {ip : Bool} {st : State Val}
+    (ha : a.Ok) (hb : b.Ok) (h : apiBoolOp a op (.map b) ip = .ok st) :
+    nValid (a.stored st).vc (a.stored st).st =
+      ((List.range a.npix).filter fun p =>
+        if b.covd (p >>> a.c.shift) = true then boolFn op (a.bval p) (b.bval p) else a.bval p).length :=
+  nValid_map ha.1 ha.2.1 hb.1 h
+
+/-- **(4) `n_valid` of `a op k`**: pixels of the dense result that differ from the sentinel; "the
+    number of `True` cells" needs the `False` sentinel (`ex_nvalid_sentinel_true`) -/
+theorem api_nvalid_const_partial {a : MapObj} {op : String} {k ip : Bool} {st : State Val}
+    (ha : a.Ok) (hs : a.sent = .bool false) (h : apiBoolOp a op (.const k) ip = .ok st) :
+    nValid (a.stored st).vc (a.stored st).st =
+      ((List.range a.npix).filter fun p =>
+        if a.covd (p >>> a.c.shift) = true then boolFn op (a.bval p) k else a.bval p).length := by
+  obtain ⟨⟨hk, _⟩, rfl⟩ := ApiBool.apiBoolOp_ok h
+  have := nValid_guard (fun x => boolFn op x k) ha.1 ha.2.1 hk hs
+  refine this.trans ?_
+  apply congrArg
+  apply List.filter_congr
+  intro p _
+  cases (if a.covd (p >>> a.c.shift) = true then boolFn op (a.bval p) k else a.bval p) <;> rfl
+
+/-- **(4) `n_valid` of `~a`** (`False` sentinel): covered pixels that were `False` -/
+theorem api_nvalid_invert_partial {a : MapObj} {st : State Val}
+    (ha : a.Ok) (hs : a.sent = .bool false) (h : apiInvert a = .ok st) :
+    nValid (a.stored st).vc (a.stored st).st =
+      ((List.range a.npix).filter fun p =>
+        if a.covd (p >>> a.c.shift) = true then !(a.bval p) else a.bval p).length := by
+  obtain ⟨hk, rfl⟩ := WFApi.apiInvert_ok h
+  have := nValid_guard (fun x => !x) ha.1 ha.2.1 hk hs
+  refine this.trans ?_
+  apply congrArg
+  apply List.filter_congr
+  intro p _
+  cases (if a.covd (p >>> a.c.shift) = true then !(a.bval p) else a.bval p) <;> rfl
+
+
+/-- **boolean cells are what the API produces and are observable**: `make_empty` of a boolean
+    kind, `update_values_pix` on a boolean map with boolean cells (non-empty value list), every
+    boolean operation (`api_boolop_map`, `api_boolop_const`, `api_invert`); and under `Ok` the
+    property says exactly that every pixel shows a boolean -/
+theorem api_boolcells {m : MapObj} (hm : m.Ok) (hk : m.kind.isBool = true) :
+    (m.BoolCells ↔ ∀ p, p < m.npix → (m.abs p).isBoolVal = true) ∧
+    (∀ {op pix vals single ru m'}, m.BoolCells → (∀ vs, vals = some vs → vs ≠ []) →
+        apiUpdate m op pix vals single ru = .ok m' → m'.BoolCells) :=
+  ⟨boolCells_iff_abs hm.1 (hm.2.1.boolBlank hk),
+   fun hc hne h => boolCells_apiUpdate hk hm.2.1 hc hne h⟩
+
+theorem api_boolcells_make_empty {covord spord : Nat} {kind : Kind} {sentinel : Option Val}
+    {covPix : List Nat} {m : MapObj} (hk : kind.isBool = true)
+    (h : apiMakeEmpty covord spord kind sentinel covPix = .ok m) : m.BoolCells :=
+  boolCells_makeEmpty hk h
+
+/-- the driver stores exactly `m.stored st` for an accepted `bop` line with a map on the right
+    (copying form: bound to the result name; in place: put back under the map's name) -/
+theorem api_driver_stores {w : World} {a : Args} {n rn : String} {rest : List String} {m b : MapObj}
+    {st : State Val} (ha : a.pos = n :: rest) (hget : w.get? n = some m)
+    (hc : a.get? "const" = none) (hr : a.get? "rhs" = some rn) (hb : w.get? rn = some b)
+    (h : apiBoolOp m (a.getD "op" "and") (.map b) (a.flag "inplace") = .ok st) :
+    opBop w a =
+      (if a.flag "inplace" then w.put n (m.stored st) else w.bind (a.getD "r" "tmp") (m.stored st),
+       "ok") :=
+  opBop_map_ok ha hget hc hr hb h
+
+/-! ### non-vacuity and counterexamples (evaluated) -/
+
+open WFApi in
+/-- `a`: ordinary boolean map, coverage pixel 0 allocated, `True` at pixel 0;
+    `b`: bit-packed map, `True` at pixel 16 (coverage pixel 1); orders 0 / 2 (16 pixels per
+    coverage pixel) -/
+def exAB : Except Err (MapObj × MapObj) := do
+  let a ← apiMakeEmpty 0 2 (.plain .bool) none [0]
+  let a ← apiUpdate a "replace" [0] (some [.bool true]) true
+  let b ← apiMakeEmpty 0 2 .packed none []
+  let b ← apiUpdate b "replace" [16] (some [.bool true]) true
+  pure (a, b)
+
+/-- the operands satisfy every hypothesis used above -/
+example : WFApi.okAnd exAB (fun r => decide r.1.Ok && decide r.2.Ok && decide r.1.BoolCells &&
+    decide r.2.BoolCells && r.1.kind.isBool && r.2.kind.isBool) = true := by decide +kernel
+
+/-- `a & b` (copy) and `b &= a` (in place), and the De Morgan pair -/
+def exLaws : Except Err (List (MapObj × Nat)) := do
+  let (a, b) ← exAB
+  let ab ← apiBoolOp a "and" (.map b) false
+  let ba ← apiBoolOp b "and" (.map a) true
+  let l ← apiInvert (a.stored ab)
+  let na ← apiInvert a
+  let nb ← apiInvert b
+  let r ← apiBoolOp (a.stored na) "or" (.map (b.stored nb)) false
+  let x ← apiBoolOp a "xor" (.map a) true
+  let z ← apiBoolOp a "nand" (.map b) false
+  let z' ← apiBoolOp a "xor" (.map b) false
+  pure ([a.stored ab, b.stored ba, (a.stored ab).stored l, (a.stored na).stored r, a.stored x,
+    a.stored z, a.stored z'].map fun m => (m, nValid m.vc m.st))
+
+/-- **`&` is not commutative off the common coverage**: at pixel 0 (only `a` covers it, `a` is
+    `True`) `a & b` shows `True` and `b & a` shows `False`; at pixel 16 the other way round;
+    the result kind follows the left operand; **De Morgan fails** at pixel 16 (only `b` covers
+    it, `b` is `True`): `~(a & b)` shows `True`, `~a | ~b` shows `False`, `n_valid` 31 vs 30;
+    `a ^ a`: nothing valid, coverage pixel 0 still allocated; `nand` is accepted and is `xor` -/
+example : WFApi.okAnd exLaws (fun r =>
+    match r with
+    | [(ab, nab), (ba, nba), (l, nl), (r, nr), (x, nx), (z, _), (z', _)] =>
+      ab.abs 0 == .bool true && ba.abs 0 == .bool false &&
+      ab.abs 16 == .bool false && ba.abs 16 == .bool true &&
+      ab.kind == .plain .bool && ba.kind == .packed && nab == 1 && nba == 1 &&
+      decide ab.Ok && decide ba.Ok &&
+      (List.range 12).all (fun k => ab.covd k == ba.covd k) && ab.covd 0 && ab.covd 1 && !ab.covd 2 &&
+      l.abs 16 == .bool true && r.abs 16 == .bool false && l.abs 0 == .bool false &&
+      r.abs 0 == .bool false && nl == 31 && nr == 30 &&
+      nx == 0 && x.covd 0 && x.abs 0 == .bool false &&
+      (List.range 192).all (fun p => z.abs p == z'.abs p) && z.abs 0 == .bool true
+    | _ => false) = true := by decide +kernel
+
+/-- every refusal is `NotImplementedError`: sentinel `True` on either side, different orders,
+    a non-boolean operand on either side — for both forms; a constant is accepted on a
+    sentinel-`True` map -/
+example :
+    let t : MapObj := WFApi.blankMap (.plain .bool) (.bool true)
+    let f : MapObj := WFApi.blankMap (.plain .bool) (.bool false)
+    let i : MapObj := WFApi.blankMap (.plain (.int 32 true)) (.num 0 0)
+    let g : MapObj := { f with spord := f.spord + 1 }
+    ([apiBoolOp t "or" (.map f) false, apiBoolOp f "or" (.map t) true, apiBoolOp f "or" (.map g) false,
+      apiBoolOp i "or" (.map f) true, apiBoolOp f "or" (.map i) false, apiBoolOp i "or" (.const true) false,
+      apiInvert i].all fun r => match r with | .error .notImpl => true | _ => false) = true ∧
+    (match apiBoolOp t "or" (.const true) true, apiInvert t, apiBoolOp f "xor" (.map f) true with
+     | .ok _, .ok _, .ok _ => true | _, _, _ => false) = true := by decide +kernel
+
+open WFApi in
+/-- an ordinary boolean map with sentinel `True`: a pixel outside the coverage shows `True`
+    before and after `~` (so "False outside the coverage stays False" needs the `False`
+    sentinel), and `n_valid` counts the `False` pixels: 2 of the 16 covered pixels were set to
+    `False`; after `~` the other 14 are -/
+def exSentTrue : Except Err (MapObj × MapObj) := do
+  let t ← apiMakeEmpty 0 2 (.plain .bool) (some (.bool true)) []
+  let t ← apiUpdate t "replace" [0, 1] (some [.bool false]) true
+  let st ← apiInvert t
+  pure (t, t.stored st)
+
+example : WFApi.okAnd exSentTrue (fun r => decide r.1.Ok && decide r.2.Ok &&
+    r.1.abs 100 == .bool true && r.2.abs 100 == .bool true &&
+    r.1.abs 0 == .bool false && r.2.abs 0 == .bool true && r.2.abs 5 == .bool false &&
+    nValid r.1.vc r.1.st == 2 && nValid r.2.vc r.2.st == 14) = true := by decide +kernel
+
+/-- `MapObj.Ok` does not type the cells: this object (orders 0 / 0, coverage pixel 0 allocated,
+    its cell holds the number 3) is `Ok`, and `a | False` shows `False` where `a` shows `3`
+    — the reason for the hypothesis `BoolCells` in `api_boolop_map_outside_partial` (a numpy
+    boolean array cannot hold a 3; no function of the model stores one in a boolean map) -/
+def exUntyped : MapObj :=
+  { covord := 0, spord := 0, kind := .plain .bool, sent := .bool false,
+    st := ⟨#[1, -1, -2, -3, -4, -5, -6, -7, -8, -9, -10, -11], #[.bool false, .num 3 0]⟩ }
+
+example : exUntyped.Ok ∧ ¬ exUntyped.BoolCells ∧ exUntyped.abs 0 = .num 3 0 ∧
+    WFApi.okAnd (apiBoolOp exUntyped "or" (.map (WFApi.blankMap (.plain .bool) (.bool false))) false)
+      (fun st => (exUntyped.stored st).abs 0 == .bool false) = true := by decide +kernel
+
+/-- the same through the protocol driver (`step`): the answers of a history -/
+def replies (lines : List String) : List String :=
+  (lines.foldl (fun (wo : World × List String) l => ((step wo.1 l).1, wo.2 ++ [(step wo.1 l).2]))
+    ({}, [])).2
+
+/-! `a & b` vs `b &= a` at pixels 0 and 16, coverage masks, kinds; `~(a & b)` vs `~a | ~b` at
+    pixels 0 and 16 and their `n_valid` -/
+#guard replies [
+  "cfg a kind=plain dtype=b1 covord=0 spord=2 covpix=0",
+  "cfg b kind=packed covord=0 spord=2",
+  "upd a pix=0 val=T",
+  "upd b pix=16 val=T",
+  "bop a rhs=b op=and r=ab",
+  "copy b r=ba",
+  "bop ba rhs=a op=and inplace=1",
+  "get ab pix=0,16", "get ba pix=0,16", "covmask ab", "covmask ba", "info ab", "info ba",
+  "inv ab r=l", "inv a r=na", "inv b r=nb", "bop na rhs=nb op=or r=r",
+  "get l pix=0,16", "get r pix=0,16", "nvalid l", "nvalid r"] ==
+  ["ok", "ok", "ok", "ok", "ok", "ok", "ok",
+   "T,F", "F,T", "110000000000", "110000000000",
+   "kind=plain:b1 covord=0 spord=2 sentinel=F", "kind=packed covord=0 spord=2 sentinel=F",
+   "ok", "ok", "ok", "ok", "F,T", "F,F", "31", "30"]
+
+/-! the dual law at pixel 17 (only `b` covers it, `b` is `False` there): `~(a | b)` shows `True`,
+    `~a & ~b` shows `False`; `a | (a & b)` shows `a` at pixels 0, 16, 17 with the union coverage;
+    `a ^ a` keeps coverage pixel 0 with nothing valid -/
+#guard replies [
+  "cfg a kind=plain dtype=b1 covord=0 spord=2 covpix=0",
+  "cfg b kind=packed covord=0 spord=2",
+  "upd a pix=0 val=T",
+  "upd b pix=16 val=T",
+  "bop a rhs=b op=or r=o", "inv o r=l", "inv a r=na", "inv b r=nb", "bop na rhs=nb op=and r=r",
+  "get l pix=0,16,17", "get r pix=0,16,17",
+  "bop a rhs=b op=and r=ab", "bop a rhs=ab op=or r=abs",
+  "get abs pix=0,16,17", "get a pix=0,16,17", "covmask abs", "covmask a",
+  "bop a rhs=a op=xor r=x", "nvalid x", "covmask x"] ==
+  ["ok", "ok", "ok", "ok", "ok", "ok", "ok", "ok", "ok",
+   "F,F,T", "F,F,F",
+   "ok", "ok", "T,F,F", "T,F,F", "110000000000", "100000000000",
+   "ok", "0", "100000000000"]
 
 end C11
 end HS
